@@ -42,7 +42,8 @@ def fmt_rule(analysis: Analysis, res: RuleResult) -> None:
     # hex text <-> bytes on both sides
     dec = analysis.p.func("ota:fw_hex_to_int")
     enc = analysis.p.func("ota:fw_int_to_hex")
-    res.add("C09-R1", "ota:fw_hex_to_int / payload is hex text (unhexlify / bytes.fromhex) of packed words", any(True for _ in common.calls_in(dec.node, "unhexlify")) or any(True for _ in common.calls_in(dec.node, "fromhex")), common.where(analysis, dec, dec.node), "")
+    lenient = any(True for _ in common.calls_in(dec.node, "fromhex"))
+    res.add("C09-R1", "ota:fw_hex_to_int / payload is strict hex text (unhexlify) of packed words", any(True for _ in common.calls_in(dec.node, "unhexlify")) and not lenient, common.where(analysis, dec, dec.node), "binascii.unhexlify" if not lenient else "bytes.fromhex skips ASCII whitespace, which unhexlify rejects: requests with blanks between byte pairs are no longer malformed")
     res.add("C09-R1", "ota:fw_int_to_hex / result is hex text (hexlify / bytes.hex) of packed words", any(True for _ in common.calls_in(enc.node, "hexlify")) or any(True for _ in common.calls_in(enc.node, "hex")), common.where(analysis, enc, enc.node), "")
 
 
